@@ -419,7 +419,11 @@ def _oracle_life(fw, cfg, ops, trace, res, last, glob, offset):
                     and any(o2[0] == "open" for o2 in ops[:i]) and "leave" not in fired:
                 v.append(("leave/missing-after-abort", f"router ABORT at op {i}, onLeave never fired"))
     # --- nothing pending after the transport is gone (default onDisconnect) ---
-    if last and lost and cfg["disc_super"]:
+    # once the transport is gone nothing is pending, whatever the user's onLeave / onDisconnect do (onClose sweeps in the
+    # continuation of onDisconnect: on asyncio one loop iteration after the loss)
+    swept = cfg["disc_super"] or fw == "tx" or \
+        any(o[0] == "turn" for o in ops[max(i for i, o in enumerate(ops) if o[0] == "lost"):]) if lost else False
+    if last and lost and swept:
         if any(res["tables"].values()):
             v.append(("pending/tables-not-empty-after-disconnect", f"tables {res['tables']} after transport loss"))
         for j, done in res["futures"].items():
